@@ -54,6 +54,7 @@ def render_ops(tokens, local_loop_buffers):
             leaf = LEAVES[int(t[1:]) - 1]
             tag += 1
             nm = names if not (local_loop_buffers and stack and "F" in [s[0] for s in stack]) else stack[[s[0] for s in stack].index("F")][1]
+            nm = nm or names
             if leaf[0] == "copy":
                 lines.append(f'{p}"memref.copy"({nm[leaf[1]]}, {nm[leaf[2]]}) {{tag = {tag} : i32}} : ({T}, {T}) -> ()')
             elif leaf[0] == "gen":
@@ -68,9 +69,10 @@ def render_ops(tokens, local_loop_buffers):
             if local_loop_buffers and not any(s[0] == "F" for s in stack):
                 loc = {k: f"%lp{nloop}_{k}" for k in "ABC"}
                 pre += [f"    {v} = memref.alloc() : {T}" for v in loc.values()]
-            lines.append(f"{p}scf.for %i{nloop} = %c0 to %n step %c1 {{")
-            uses_n = True
-            stack.append(("F", loc))
+            ub = "%c1" if t == "F2" else "%n"        # loop kind 2: a constant single-trip loop (what tiling leaves for an untiled dimension)
+            lines.append(f"{p}scf.for %i{nloop} = %c0 to {ub} step %c1 {{")
+            uses_n = uses_n or ub == "%n"
+            stack.append(("F", loc if not any(s[0] == "F" for s in stack) else stack[[s[0] for s in stack].index("F")][1]))
             depth += 1
         elif t == "X":
             lines.append(f"{p}scf.if %p {{")
